@@ -6,11 +6,14 @@ Line-protocol driver for C10.  First word selects the sub-model:
 
   q <protected-hex> <in-hex>…       Quoter::new(b"", protected).requote(in) for each input
                                     → `none` | `some:<hex>` per input, or `panic-new`
+  u <path-hex>…                     Url::new(uri).path() (DEFAULT_QUOTER, protected `%/+`)
   m <F|P> <pats> <path-hex>…        ResourceDef::new / ::prefix; per path `is/find/capture`
   b <F|P> <pats> <val-hex>…         resource_path_from_iter, then capture on the built path
+  bm <F|P> <pats> <name>=<val>…     resource_path_from_map
   k <path-hex> <F|P>:<pat-hex>…     successive capture_match_info on one Path
     <pats> = `S <pat-hex>` (Patterns::Single) | `L<n> <pat-hex>×n` (Patterns::List)
-(hex: lower-case, `-` = empty; strings are UTF-8)
+(hex: lower-case, `-` = empty; strings are UTF-8; a path/pattern word may also be written
+`part+part+…` with parts hex or `*<n>:<hex>` = the bytes repeated n times)
 -/
 namespace ActixModel.Drv.C10
 open ActixModel.Util ActixModel.Quoter ActixModel.Pattern
@@ -34,17 +37,28 @@ def runQuoter (prot : String) (inputs : List String) : String :=
 
 /-! ### pattern cases -/
 
-def strOfHex (w : String) : Option (List Char) :=
-  match bytesOfHex w with
-  | some bs => (String.fromUTF8? (ByteArray.mk bs.toArray)).map String.toList
-  | none => none
-
-def hexOfChars (cs : List Char) : String := hexOrDash (String.ofList cs).toUTF8.toList
-
 def allSome {α : Type} : List (Option α) → Option (List α)
   | [] => some []
   | none :: _ => none
   | some x :: xs => (allSome xs).map (x :: ·)
+
+/-- one `+`-separated part: hex, or `*<n>:<hex>` = the bytes repeated n times -/
+def bytesOfPart (part : String) : Option (List UInt8) :=
+  if part.startsWith "*" then
+    match ((part.drop 1).toString.splitOn ":") with
+    | [n, h] =>
+      match n.toNat?, bytesOfHex h with
+      | some k, some bs => some ((List.replicate k bs).flatten)
+      | _, _ => none
+    | _ => none
+  else bytesOfHex part
+
+def strOfHex (w : String) : Option (List Char) :=
+  match allSome ((w.splitOn "+").map bytesOfPart) with
+  | some parts => (String.fromUTF8? (ByteArray.mk parts.flatten.toArray)).map String.toList
+  | none => none
+
+def hexOfChars (cs : List Char) : String := hexOrDash (String.ofList cs).toUTF8.toList
 
 /-- `S <pat>` | `L<n> <pat>…`: returns the patterns and the remaining words -/
 def takePatterns : List String → Option (Patterns × List String)
@@ -59,8 +73,8 @@ def takePatterns : List String → Option (Patterns × List String)
     else none
   | [] => none
 
-def showSeg (p : PathState) (x : String × Nat × Nat) : String :=
-  x.1 ++ "=" ++ toString x.2.1 ++ "-" ++ toString x.2.2 ++ ":" ++
+def showSeg (p : PathState) (x : Name × Nat × Nat) : String :=
+  String.ofList x.1 ++ "=" ++ toString x.2.1 ++ "-" ++ toString x.2.2 ++ ":" ++
     (match sliceBytes? p.path x.2.1 x.2.2 with | some v => hexOfChars v | none => "!")
 
 /-- `Path::iter()` slices every segment; one bad span makes the whole iteration panic, and the
@@ -110,6 +124,22 @@ def runBuild (flag : String) (ws : List String) : String :=
       (if ok then "1" else "0") ++ ":" ++ hexOfChars out ++ " " ++
         showOutcome (rd.captureMatchInfo { path := out })
 
+/-- `bm <F|P> <patterns> <name>=<val>…` : resource_path_from_map (later duplicates win) -/
+def runBuildMap (flag : String) (ws : List String) : String :=
+  withDef flag ws fun rd kvs =>
+    let pairs := kvs.map fun kv =>
+      match kv.splitOn "=" with
+      | [k, v] =>
+        match strOfHex k, strOfHex v with
+        | some k, some v => some (k, v)
+        | _, _ => none
+      | _ => none
+    match allSome pairs with
+    | none => "bad-case"
+    | some ps =>
+      let (out, ok) := buildSegsMap rd.segments ps.reverse
+      (if ok then "1" else "0") ++ ":" ++ hexOfChars out
+
 /-- `k <path> <F|P>:<pat>…` : successive capture_match_info calls on one `Path` (skip chaining) -/
 def runChain (ws : List String) : String :=
   match ws with
@@ -137,11 +167,21 @@ def runChain (ws : List String) : String :=
           | _ => ("bad-case" :: acc).reverse
       joinWith " " (go { path := path } steps [])
 
+/-- `u <path>…` : `Url::new(uri).path()` = `DEFAULT_QUOTER.requote(path)` or the path itself
+(`from_utf8_lossy` is the identity on the generated inputs: escapes decode to ASCII) -/
+def runUrl (inputs : List String) : String :=
+  joinWith " " (inputs.map fun w =>
+    match bytesOfHex w with
+    | some i => hexOrDash ((defaultQuoter.requote i).getD i)
+    | none => "bad-case")
+
 def run (line : String) : String :=
   match words line with
   | "q" :: prot :: inputs => runQuoter prot inputs
+  | "u" :: inputs => runUrl inputs
   | "m" :: flag :: rest => runMatch flag rest
   | "b" :: flag :: rest => runBuild flag rest
+  | "bm" :: flag :: rest => runBuildMap flag rest
   | "k" :: rest => runChain rest
   | _ => "bad-case"
 
